@@ -50,6 +50,12 @@ Fixpoint nodup_nat (l : list nat) : bool :=
 Definition claims (x : state) : list nat :=
   flat_map (fun t => match t_job t with Some j => [j] | None => [] end) (s_trans x).
 
+(* I3a': what an AGV carries: exactly one job in TRANSIT, nothing in any other phase *)
+Definition agv_load_b (x : state) : bool :=
+  forallb (fun t => match t_st t with
+                    | TTransit => Nat.eqb (length (b_store (t_buf t))) 1
+                    | _ => is_nil (b_store (t_buf t)) end) (s_trans x).
+
 (* I3b: a job is claimed by at most one AGV *)
 Definition claims_b (x : state) : bool := nodup_nat (claims x).
 
@@ -60,6 +66,16 @@ Definition transit_side_b (tr : transition) (y : state) : bool :=
   | NT TTransit, Some j => match nth_error (s_jobs y) j with
                            | Some jb => negb (is_job_running jb)
                            | None => true end
+  | _, _ => true
+  end.
+
+(* C04 side condition: the job an AGV takes is the job it claimed at dispatch (read in the post-state:
+   the transition into TRANSIT keeps the claim) *)
+Definition transit_claim_b (tr : transition) (y : state) : bool :=
+  match tr_comp tr, tr_new tr with
+  | CT t, NT TTransit => match nth_error (s_trans y) t with
+                         | Some ts => opt_nat_eqb (t_job ts) (tr_job tr)
+                         | None => true end
   | _, _ => true
   end.
 
@@ -228,12 +244,18 @@ Definition fresh_b (x : state) : bool :=
   && forallb (fun ms => mstate_eqb (m_st ms) MIdle && is_nil (b_store (m_in ms))) (s_machs x)
   && forallb2 (fun jb cs => forallb2 op_machine_ok (j_ops jb) cs) (s_jobs x) (i_jobs i).
 
+(* ... in addition: no unfinished job lies in an output buffer, and every AGV is idle and empty *)
+Definition fresh2_b (x : state) : bool :=
+  fresh_b x
+  && forallb (fun jb => negb (is_output i (j_loc jb)) || all_operations_done jb) (s_jobs x)
+  && forallb (fun ts => tstate_eqb (t_st ts) TIdle && is_nil (b_store (t_buf ts))) (s_trans x).
+
 (* the clause vector the monitors print, in this order *)
 Definition clause_vector (x : state) : list bool :=
   [ placement_b x; loc_b x; mach_hold_b x; agv_hold_b x; claims_b x; capacity_b x; flags_b x;
     feasible_b x; no_overdue_b x; past_b x; busy_op_b x; proc_inner_b x; output_done_b x;
-    outages_b x; outage_nonneg_b x; agv_phase_b x; idle_unclaimed_b x; sto_ok_b x; fresh_b x ].
+    outages_b x; outage_nonneg_b x; agv_phase_b x; idle_unclaimed_b x; sto_ok_b x; fresh_b x; agv_load_b x; fresh2_b x ].
 
 End WithInst.
 
-Definition clause_names : list nat := seq0 19.
+Definition clause_names : list nat := seq0 21.
